@@ -156,3 +156,37 @@ def yield_in_finally(g):
         L.append("print(%s.call(%s));" % (nm, "" if k == 0 else r.choice(["\"in%d\"" % k, ""])))
     L.append("print(%s.has_finished());" % nm)
     return L
+
+
+def xmod_fiber_program(rng):
+    """fibers whose bodies come from another module: after every call / yield / finish that hands control back, the
+    caller's next statement reads, writes, declares or captures a global of ITS OWN module (both modules have globals of
+    the same names); the fiber's body does the same on its side after every resume"""
+    r = rng
+    lib = ["var label = \"lib\";", "var count = 100;", "var step = 10;",
+           "fn make_counter() { return Fiber.new(|start| { var cur = start; while true { count = count + step; var got = Fiber.yield([label, count, cur]); if got != nil { cur = got; } } }); }",
+           "fn make_once() { return Fiber.new(|| { count = count + 1; return [label, count]; }); }",
+           "fn make_relay(inner) { return Fiber.new(|a| { var x = inner.call(a); count = count + 1000; var y = Fiber.yield([label, x]); return [label, count, y]; }); }",
+           "var shared = make_counter();", "fn state() { return [label, count]; }"]
+    M = ["import \"fiblib\" as fiblib;", "var label = \"main\";", "var count = 0;", "var step = 1;",
+         "var fmain = Fiber.new(|a| { count = count + step; var got = Fiber.yield([label, count, a]); count = count + step; return [label, count, got]; });",
+         "var gens = [fiblib.make_counter(), fiblib.make_once(), fiblib.shared, fmain];",
+         "var relay = fiblib.make_relay(Fiber.new(|a| { count = count + 5; return [label, count, a]; }));"]
+    after = ["print([label, count]);", "count = count + step; print(count);", "var d%(i)d = label + \"!\"; print(d%(i)d);",
+             "fn h%(i)d() { return [label, count]; } print(h%(i)d());", "var cl%(i)d = || label; print(cl%(i)d());",
+             "step = step + 1; print([step, fiblib.step]);", "print(fiblib.state());", "label = \"main\" + String.from(%(i)d); print(label);"]
+    for i in range(r.range(4, 12)):
+        k = r.below(6)
+        arg = r.choice(["1", "nil", "\"a\"", ""])
+        if k <= 2:
+            g = r.below(4)
+            M.append("try { print(gens[%d].call(%s)); } catch e { print(type(e)); print(e.context); }" % (g, arg if arg else ""))
+        elif k == 3:
+            M.append("try { print(relay.call(%s)); } catch e { print(type(e)); print(e.context); }" % (arg if arg else "0"))
+        elif k == 4:
+            M.append("print(fiblib.make_once().call());")
+        else:
+            M.append("print(gens[0].has_finished());")
+        M.append(r.choice(after) % {"i": i})
+    M.append("print([label, count, step]); print(fiblib.state());")
+    return "\n".join(M) + "\n", [("fiblib", "\n".join(lib) + "\n")]
